@@ -469,7 +469,7 @@ def run_shard(shard, tier, seed):
         # (x o2 M) o1 S under an enclosing node, M and S bound to boundary constants by the state, x (and y) symbolic: the
         # partially evaluated operand is handed to the simplifier with constants that only the state provides
         w, o1 = shard[1], shard[2]
-        K = sorted(set(v & irsem.mask(w) for v in (0, 1, w - 1, w, irsem.mask(w), 1 << (w - 1), 0x10, 4)))
+        K = sorted(set(v & irsem.mask(w) for v in (0, 1, w - 1, w, irsem.mask(w), 1 << (w - 1), 0x10, 4, 2, 3, 5, 6, 7, 8, 9, 0x20, 0x40)))
         x, y = ex.ExprId('x%d' % w, w), ex.ExprId('y%d' % w, w)
         M, S_ = ex.ExprId('m%d' % w, w), ex.ExprId('s%d' % w, w)
         for o2 in PAIR_OPS:
